@@ -442,3 +442,122 @@ def unique_bus_name(draw):
 
 
 bus_name = st.one_of(wellknown_bus_name(), unique_bus_name())
+
+
+# ---------------------------------------------------------------------------
+# messages (JSON-able abstract description)
+
+MSG_FIELDS = {   # type -> (required, optional) header fields settable by a sender
+    1: (['path', 'member'], ['interface', 'destination', 'sender']),
+    2: (['reply_serial'], ['destination', 'sender']),
+    3: (['error_name', 'reply_serial'], ['destination', 'sender']),
+    4: (['path', 'member', 'interface'], ['destination', 'sender']),
+}
+
+_serials = st.one_of(st.sampled_from([1, 2, 0x0a0d, 0x0d0a, 0x0d0a0d0a, 2**32 - 1, 2**31, 255, 256, 0x6c, 0x42]),
+                     st.integers(1, 2**32 - 1))
+
+
+def _field_value(name):
+    return {'path': object_path, 'member': member_name(), 'interface': interface_name(),
+            'error_name': error_name(), 'reply_serial': _serials, 'destination': bus_name,
+            'sender': unique_bus_name()}[name]
+
+
+@st.composite
+def message(draw, mtypes=(1, 2, 3, 4), body_depth=2, allow_h=False, max_types=3, with_sender=True):
+    t = draw(st.sampled_from(list(mtypes)))
+    req, opt = MSG_FIELDS[t]
+    fields = {}
+    for f in req:
+        fields[f] = draw(_field_value(f))
+    for f in opt:
+        if f == 'sender' and not with_sender:
+            continue
+        if draw(st.booleans()):
+            fields[f] = draw(_field_value(f))
+    if draw(st.integers(0, 3)) == 0:
+        sig, trees = '', []
+    else:
+        sig, trees = draw(typed_values(max_types=max_types, depth=body_depth, allow_h=allow_h))
+    no_reply = no_auto = False
+    if t == 1:
+        no_reply = draw(st.booleans())
+        no_auto = draw(st.booleans())
+    return {'type': t, 'fields': fields, 'sig': sig, 'trees': trees, 'pres': draw(presentation),
+            'no_reply': no_reply, 'no_auto': no_auto, 'serial': draw(_serials)}
+
+
+def ref_message_bytes(msg, little=True, field_order=None, extra_fields=(), unix_fds=None, fds=None):
+    """Reference encoding of an abstract message."""
+    f = {R.FIELD_CODE[k]: v for k, v in msg['fields'].items()}
+    if unix_fds is not None:
+        f[9] = unix_fds
+    flags = (1 if msg.get('no_reply') else 0) | (2 if msg.get('no_auto') else 0)
+    return R.encode_message(msg['type'], msg['serial'], f, msg['sig'], msg['trees'], little, flags,
+                            field_order, extra_fields, fds)
+
+
+def n_header_fields(msg, extra=0):
+    return len(msg['fields']) + (1 if msg['sig'] else 0) + extra
+
+
+def build_txdbus_message(MSG, msg, oobFDs=None):
+    """Construct the txdbus message object for an abstract message (sender only where the
+    constructor takes it)."""
+    f = msg['fields']
+    body = to_py_list(msg['sig'], msg['trees'], msg['pres']) if msg['sig'] else None
+    sig = msg['sig'] if msg['sig'] else None
+    t = msg['type']
+    if t == 1:
+        return MSG.MethodCallMessage(f['path'], f['member'], interface=f.get('interface'),
+                                     destination=f.get('destination'), signature=sig, body=body,
+                                     expectReply=not msg['no_reply'], autoStart=not msg['no_auto'],
+                                     oobFDs=oobFDs)
+    if t == 2:
+        return MSG.MethodReturnMessage(f['reply_serial'], body=body, destination=f.get('destination'),
+                                       signature=sig)
+    if t == 3:
+        return MSG.ErrorMessage(f['error_name'], f['reply_serial'], destination=f.get('destination'),
+                                signature=sig, body=body, sender=f.get('sender'))
+    return MSG.SignalMessage(f['path'], f['member'], f['interface'], destination=f.get('destination'),
+                             signature=sig, body=body)
+
+
+def constructible_fields(msg):
+    """The header fields a txdbus constructor can set for this message."""
+    f = dict(msg['fields'])
+    if msg['type'] != 3:
+        f.pop('sender', None)
+    return f
+
+
+PARSED_ATTRS = ['path', 'interface', 'member', 'error_name', 'reply_serial', 'destination', 'sender']
+
+
+def compare_parsed(m, msg, fields=None, prefix='parse'):
+    """Compare a txdbus message object obtained from parseMessage with the abstract message.
+    Returns list of (keysuffix, detail)."""
+    out = []
+    fields = msg['fields'] if fields is None else fields
+    if m._messageType != msg['type']:
+        out.append(('type', 'expected %d got %r' % (msg['type'], m._messageType)))
+    for a in PARSED_ATTRS:
+        got = getattr(m, a, None)
+        exp = fields.get(a)
+        if got != exp or (exp is not None and type(got) is not type(exp) and not isinstance(got, type(exp))):
+            out.append(('field.' + a, 'expected %r got %r' % (exp, got)))
+    if msg['sig']:
+        if m.signature != msg['sig']:
+            out.append(('signature', 'expected %r got %r' % (msg['sig'], m.signature)))
+        exp = normal_forms(msg['sig'], msg['trees'])
+        if not R.nf_equal(m.body, exp):
+            out.append(('body', 'expected %r got %r' % (exp, m.body)))
+    else:
+        if m.signature not in (None, '') or (m.body not in (None, [])):
+            out.append(('body', 'expected no body, got sig %r body %r' % (m.signature, m.body)))
+    if bool(m.expectReply) != (not msg.get('no_reply')):
+        out.append(('flag.expectReply', 'expected %r got %r' % (not msg.get('no_reply'), m.expectReply)))
+    if bool(m.autoStart) != (not msg.get('no_auto')):
+        out.append(('flag.autoStart', 'expected %r got %r' % (not msg.get('no_auto'), m.autoStart)))
+    return [('%s.%s' % (prefix, k), d) for k, d in out]
